@@ -26,3 +26,41 @@ Proof.
   intros be H. split; [apply ex_all_wf; cbn [In] in H; intuition lia|].
   pose proof (ex_all_runs be H) as R. cbv zeta in R. tauto.
 Qed.
+
+(* ---- tie (a), round 9: eventfd-backed vs pipe-backed is decided per object and the read / write sizes and the second
+   close follow from it, as in the current C text of src/iv_event_raw_posix.c (Core/CoreLeafLink.v; Gen/LeafCoreRaw.v is
+   re-translated by gen/c2gallina.py on every run of this check) ---- *)
+From Ivv Require Import Base.CSem Gen.LeafCoreRaw Core.CoreLeafLink.
+
+Theorem C09_raw_sizes_are_the_code :
+  forall s j,
+  raw_toread (rw_wfd s j) (rw_rfd s j) = Some (if raw_is_pipe s j then 1024 else 8) /\
+  raw_post_pipe (rw_wfd s j) (rw_rfd s j) = Some (raw_is_pipe s j) /\
+  raw_unreg_pipe (rw_wfd s j) (rw_rfd s j) = Some (raw_is_pipe s j) /\
+  raw_post_size_pipe tt = Some 1 /\ raw_post_size_efd tt = Some 8.
+Proof. exact leaf_raw_sizes. Qed.
+Print Assumptions C09_raw_sizes_are_the_code.
+
+Theorem C09_raw_post_is_the_code :
+  forall s j,
+  match raw_post_pipe (rw_wfd s j) (rw_rfd s j), raw_post_size_pipe tt, raw_post_size_efd tt with
+  | Some pipe, Some n1, Some n8 =>
+      Some (set_kern s (fst (if pipe then k_write (kern s) (rw_wfd s j) n1 0 else k_write (kern s) (rw_wfd s j) n8 1)))
+  | _, _, _ => None
+  end = Some (raw_post s j).
+Proof. exact raw_post_is_the_code. Qed.
+Print Assumptions C09_raw_post_is_the_code.
+
+Theorem C09_raw_unregister_is_the_code :
+  forall s j,
+  raw_unregister s j =
+  bind (fd_unregister s (RAW_KEY j)) (fun s =>
+    let s := do_close s (rw_rfd s j) in
+    match raw_unreg_pipe (rw_wfd s j) (rw_rfd s j) with
+    | Some pipe =>
+        let s := if pipe then do_close s (rw_wfd s j) else s in
+        R (set_rw s (upd (rw_reg s) j false) (rw_rfd s) (rw_wfd s))
+    | None => halt s TCrash
+    end).
+Proof. exact raw_unregister_is_the_code. Qed.
+Print Assumptions C09_raw_unregister_is_the_code.
